@@ -1,5 +1,6 @@
 (* C15: Sanitize replaces exactly the password literal, whatever the password contains. *)
-From InfluxQL Require Import Base.Prelude Lex.Token Lex.Scanner Lex.Quote San.Sanitize.
+From InfluxQL Require Import Base.Prelude Lex.Token Lex.Scanner Lex.Quote.
+From InfluxQL Require Import San.Sanitize.
 
 Definition all_space (w : text) : Prop := Forall (fun c => re_space c = true) w.
 Definition starts_nonspace (t : text) : Prop := match t with [] => True | c :: _ => re_space c = false end.
@@ -221,3 +222,77 @@ Corollary sanitize_set_ni pre p ws1 f ws2 u ws3 ws4 pw1 pw2 post :
   redact_all match_set 0 (pre ++ (p ++ ws1 ++ f ++ ws2 ++ quoted_name u ++ ws3 ++ 61 :: ws4) ++ quote_string pw1 ++ post)
   = redact_all match_set 0 (pre ++ (p ++ ws1 ++ f ++ ws2 ++ quoted_name u ++ ws3 ++ 61 :: ws4) ++ quote_string pw2 ++ post).
 Proof. intros. rewrite !sanitize_set_exact by assumption. reflexivity. Qed.
+
+
+(* ---- the one pass of Sanitize: both clause heads at once ---- *)
+Definition plain (c : Z) : Prop := ci 119 c = false /\ ci 112 c = false.   (* neither w nor p, in any case *)
+
+Lemma match_any_first c t : plain c -> match_any (c :: t) = None.
+Proof. intros [Hw Hp]. unfold match_any. rewrite (match_set_first c t Hp). apply match_create_first. exact Hw. Qed.
+
+Lemma quiet_plain pre t : Forall plain pre -> quiet match_any pre t.
+Proof.
+  intros Hpre a b E Hb. destruct b as [|c b]; [congruence|]. cbn. apply match_any_first.
+  rewrite Forall_forall in Hpre. apply Hpre. rewrite E. apply in_or_app. right. left. reflexivity.
+Qed.
+
+(* a spelling of WITH does not start the SET PASSWORD head *)
+Lemma with_not_set w x : spells (ts "with") w -> w <> [] -> match_set (w ++ x) = None.
+Proof.
+  intros Hw Hne. destruct w as [|c w]; [congruence|]. pose proof (Hw []) as H. cbn in H.
+  destruct (ci 119 c) eqn:Ec; [|discriminate]. unfold match_set. cbn.
+  assert (ci 112 c = false) as ->; [|reflexivity].
+  unfold ci in *. cbn in *. lia.
+Qed.
+
+(* C15, CREATE USER: in any layout and letter case, after any text without the letters w and p, the password literal -
+   whatever the password contains, clause keywords included - is replaced as a whole, nothing else changes, and the
+   rest of the text is sanitized on its own *)
+Theorem sanitize_create pre w ws1 p ws0 pw post :
+  Forall plain pre ->
+  spells (ts "with") w -> w <> [] -> all_space ws1 -> ws1 <> [] -> spells (ts "password") p -> p <> [] -> starts_nonspace p -> all_space ws0 ->
+  sanitize (pre ++ (w ++ ws1 ++ p ++ ws0) ++ quote_string pw ++ post)
+  = pre ++ (w ++ ws1 ++ p ++ ws0) ++ redacted ++ sanitize post.
+Proof.
+  intros Hpre Hw Hwne H1 Hne Hp Hpne Hps H0. unfold sanitize.
+  apply redact_clause.
+  - apply quiet_plain. exact Hpre.
+  - left. destruct w; [congruence|discriminate].
+  - unfold match_any. rewrite <- !app_assoc. rewrite (with_not_set w _ Hw Hwne). apply match_create_clause; assumption.
+Qed.
+
+Theorem sanitize_set pre p ws1 f ws2 u ws3 ws4 pw post :
+  Forall plain pre ->
+  spells (ts "password") p -> p <> [] -> all_space ws1 -> ws1 <> [] -> spells (ts "for") f -> f <> [] -> starts_nonspace f ->
+  all_space ws2 -> ws2 <> [] -> all_space ws3 -> all_space ws4 ->
+  sanitize (pre ++ (p ++ ws1 ++ f ++ ws2 ++ quoted_name u ++ ws3 ++ 61 :: ws4) ++ quote_string pw ++ post)
+  = pre ++ (p ++ ws1 ++ f ++ ws2 ++ quoted_name u ++ ws3 ++ 61 :: ws4) ++ redacted ++ sanitize post.
+Proof.
+  intros Hpre Hp Hpne H1 Hne1 Hf Hfne Hfs H2 Hne2 H3 H4. unfold sanitize.
+  apply redact_clause.
+  - apply quiet_plain. exact Hpre.
+  - left. destruct p; [congruence|discriminate].
+  - unfold match_any.
+    replace ((p ++ ws1 ++ f ++ ws2 ++ quoted_name u ++ ws3 ++ 61 :: ws4) ++ quote_string pw ++ post)
+      with (p ++ ws1 ++ f ++ ws2 ++ quoted_name u ++ ws3 ++ 61 :: ws4 ++ quote_string pw ++ post).
+    + rewrite match_set_clause by assumption. reflexivity.
+    + rewrite <- ?app_assoc. cbn [app]. rewrite <- ?app_assoc. reflexivity.
+Qed.
+
+Corollary sanitize_ni_create pre w ws1 p ws0 pw1 pw2 post :
+  Forall plain pre ->
+  spells (ts "with") w -> w <> [] -> all_space ws1 -> ws1 <> [] -> spells (ts "password") p -> p <> [] -> starts_nonspace p -> all_space ws0 ->
+  sanitize (pre ++ (w ++ ws1 ++ p ++ ws0) ++ quote_string pw1 ++ post)
+  = sanitize (pre ++ (w ++ ws1 ++ p ++ ws0) ++ quote_string pw2 ++ post).
+Proof. intros. rewrite !sanitize_create by assumption. reflexivity. Qed.
+
+Corollary sanitize_ni_set pre p ws1 f ws2 u ws3 ws4 pw1 pw2 post :
+  Forall plain pre ->
+  spells (ts "password") p -> p <> [] -> all_space ws1 -> ws1 <> [] -> spells (ts "for") f -> f <> [] -> starts_nonspace f ->
+  all_space ws2 -> ws2 <> [] -> all_space ws3 -> all_space ws4 ->
+  sanitize (pre ++ (p ++ ws1 ++ f ++ ws2 ++ quoted_name u ++ ws3 ++ 61 :: ws4) ++ quote_string pw1 ++ post)
+  = sanitize (pre ++ (p ++ ws1 ++ f ++ ws2 ++ quoted_name u ++ ws3 ++ 61 :: ws4) ++ quote_string pw2 ++ post).
+Proof. intros. rewrite !sanitize_set by assumption. reflexivity. Qed.
+
+Theorem sanitize_identity t : quiet match_any t [] -> sanitize t = t.
+Proof. apply redact_identity. Qed.
